@@ -66,6 +66,33 @@ impl CssStmt {
         }
     }
 
+    /// Like [`Self::is_invisible`], but for a given output style: compressed output
+    /// omits comments that are not preserved (`/*! ... */`), so a rule that
+    /// contains nothing else is invisible as well.
+    pub fn is_invisible_in(&self, is_compressed: bool) -> bool {
+        if !is_compressed {
+            return self.is_invisible();
+        }
+
+        match self {
+            CssStmt::Comment(text, ..) => !text.starts_with("/*!"),
+            CssStmt::RuleSet { selector, body, .. } => {
+                selector.is_invisible() || body.iter().all(|stmt| stmt.is_invisible_in(true))
+            }
+            CssStmt::Media(media_rule, ..) => {
+                media_rule.body.iter().all(|stmt| stmt.is_invisible_in(true))
+            }
+            CssStmt::Supports(supports_rule, ..) => supports_rule
+                .body
+                .iter()
+                .all(|stmt| stmt.is_invisible_in(true)),
+            CssStmt::KeyframesRuleSet(kf) => kf.body.iter().all(|stmt| stmt.is_invisible_in(true)),
+            CssStmt::Style(..) | CssStmt::UnknownAtRule(..) | CssStmt::Import(..) => {
+                self.is_invisible()
+            }
+        }
+    }
+
     pub fn copy_without_children(&self) -> Self {
         match self {
             CssStmt::RuleSet {
